@@ -1,6 +1,7 @@
 package chainsim
 
 import (
+	tunneltypes "github.com/bandprotocol/chain/v3/x/tunnel/types"
 	"fmt"
 
 	sdk "github.com/cosmos/cosmos-sdk/types"
@@ -10,6 +11,8 @@ import (
 
 // C17 — tunnel deposits fully backed, owner-withdrawable, gate activation.
 type C17 struct {
+	firstMinDep   sdk.Coins
+	minDepChanged bool
 	nWithdrawDeactivates, nOverWithdrawRejected, nOps, nActivateRejected int
 }
 
@@ -32,6 +35,11 @@ func (m *C17) OnBlock(e *Env, blk *world.BlockRecord) {
 			}
 			if !ok && !own {
 				m.nOverWithdrawRejected++
+			}
+			if !ok && own && !infraReject(j.Tx) && j.Tx.Result.Codespace == tunneltypes.ModuleName && j.Meta.Amount.IsAllPositive() {
+				// owner-withdrawable: a withdrawal within the depositor's own record is refused by the tunnel module
+				e.Fail("C17", "own_deposit_not_withdrawable", "", "%s cannot withdraw %s from tunnel %d although its recorded deposit is %s: %s", j.Meta.Actor.Name, j.Meta.Amount, j.Meta.TunnelID, j.RecordPre, firstLine(j.Tx.Result.Log))
+				return
 			}
 			if ok && j.ActivePre && !j.T.Total.IsAllGTE(j.MinDeposit) {
 				m.nWithdrawDeactivates++
@@ -112,7 +120,15 @@ func (m *C17) OnBlock(e *Env, blk *world.BlockRecord) {
 			e.Fail("C17", "active_index", "", "tunnel %d: flagged active=%v but in the active index=%v", id, ct.IsActive, active[id])
 			return
 		}
-		if ct.IsActive && !ct.TotalDeposit.IsAllGTE(ts.Params.MinDeposit) {
+		// a consequence of the activation and withdrawal rules only while the minimum itself has not been changed by governance
+		// (raising the minimum does not deactivate tunnels; nothing in the property says it should)
+		if m.firstMinDep == nil {
+			m.firstMinDep = ts.Params.MinDeposit
+		}
+		if !ts.Params.MinDeposit.Equal(m.firstMinDep) {
+			m.minDepChanged = true
+		}
+		if !m.minDepChanged && ct.IsActive && !ct.TotalDeposit.IsAllGTE(ts.Params.MinDeposit) {
 			e.Fail("C17", "active_below_minimum", "", "tunnel %d is active with total deposit %s below the minimum %s", id, ct.TotalDeposit, ts.Params.MinDeposit)
 			return
 		}
